@@ -972,6 +972,25 @@ func observe(c *Case, t triple, ask func(string) string) (impl, model string) {
 			}
 		}
 		return
+	case "xkind":
+		// every object of the Netspoc side gets NAME-DRC-<first free index of its own kind>
+		var want, got []string
+		for _, a := range strings.Split(c.Aux["asks"], "|") {
+			p := strings.Split(a, ";")
+			idx := ask("free\t" + p[2])
+			want = append(want, p[0]+" "+p[1]+"-DRC-"+idx)
+			re := regexp.MustCompile(`(?m)^` + regexp.QuoteMeta(p[0]) + `(?: network)? (` + regexp.QuoteMeta(p[1]) + `-DRC-\d+)(?: |$)`)
+			seen := map[string]bool{}
+			for _, m := range re.FindAllStringSubmatch(t.Stdout, -1) {
+				if !seen[m[1]] {
+					seen[m[1]] = true
+					got = append(got, p[0]+" "+m[1])
+				}
+			}
+		}
+		sort.Strings(want)
+		sort.Strings(got)
+		return strings.Join(got, ","), strings.Join(want, ",")
 	case "lines":
 		model = ask(c.Model[0])
 		text := t.Stdout
@@ -1015,7 +1034,9 @@ func run(ctx *Ctx) *Result {
 	res := NewResult()
 	res.Rule = "non-trivial = the input contains at least two candidates tied for an order dependent choice " +
 		"(identical device groups, crypto entries with equal peer, several dangling references, several differing options, " +
-		"several new tables/chains, several offending commands); one evaluation = N runs of the real drc in fresh processes on that input"
+		"several new tables/chains, several offending commands, more than 12 elements with tied sort keys, several objects per part of a raw/IPv6 merge), " +
+		"or it is an input of the repository's own test data that yields a change script or a diagnostic; " +
+		"one evaluation = N runs of the real drc in fresh processes on that input"
 	base, err := os.MkdirTemp("", "c16-")
 	if err != nil {
 		panic(err)
@@ -1040,7 +1061,7 @@ func run(ctx *Ctx) *Result {
 		cases = []*Case{&c}
 	} else {
 		cases = corpus()
-		per := ctx.N(40, 300)
+		per := ctx.N(30, 160)
 		r := ctx.Rng
 		for i := 0; i < per; i++ {
 			k := 2 + r.Intn(7)
@@ -1075,6 +1096,7 @@ func run(ctx *Ctx) *Result {
 				cases = append(cases, genIPTOptions(r.Fork(), k))
 			}
 		}
+		cases = append(cases, wideCases(ctx, r)...)
 		for _, c := range cases {
 			c.Runs = runs
 		}
@@ -1113,13 +1135,18 @@ func run(ctx *Ctx) *Result {
 	for i, c := range cases {
 		o := outs[i]
 		canonIn := JSONStr(c.Files) + strings.Join(c.Args, " ")
-		res.Eval(canonIn, c.Ties >= 2)
+		seedInput := strings.HasPrefix(c.Family, "seed_")
+		res.Eval(canonIn, c.Ties >= 2 || seedInput && (o.distinct[0].Stdout != "" || o.distinct[0].Exit != 0))
 		res.Count("family:" + c.Family)
 		res.Count(fmt.Sprintf("ties:%d", min(c.Ties, 9)))
 		res.CountN("process_runs", c.Runs)
 		res.Count(fmt.Sprintf("exit:%d", o.distinct[0].Exit))
 		if strings.HasPrefix(o.distinct[0].Stderr, "panic:") {
 			res.Count("crash")
+			if res.Distribution["crash"] <= 5 {
+				first, _, _ := strings.Cut(o.distinct[0].Stderr, "\n")
+				res.Notes = append(res.Notes, fmt.Sprintf("crash (C20 matter, compared by panic line only) in family %s: %s; files: %s", c.Family, first, clip(JSONStr(c.Files))))
+			}
 		}
 		if i < 3 {
 			res.Sample(map[string]any{"family": c.Family, "ties": c.Ties, "files": c.Files, "stdout": o.distinct[0].Stdout, "stderr": o.distinct[0].Stderr})
